@@ -121,7 +121,8 @@ Qed.
 Lemma recv_frame_futs e f o u oid : Inv e ->
   (futs oid (snd (recv_frame e f o u)) + pend (fst (recv_frame e f o u)) oid <= pend e oid)%nat.
 Proof.
-  intro I. unfold recv_frame. destruct (is_fragmentable f); [|apply recv_dispatch_futs; exact I].
+  intro I. unfold recv_frame. destruct (stray_fragment e f); [cbn [fst snd futs]; lia|].
+  destruct (is_fragmentable f); [|apply recv_dispatch_futs; exact I].
   pose proof (cache_append_spec (cachek e) f (inv_cwf e I)) as [Hc _].
   destruct (cache_append (cachek e) f) as [c' a]. cbn [fst] in Hc.
   assert (Inv {| sc := sc e; table := table e; objs := objs e; cachek := c' |}) as I1
@@ -561,6 +562,7 @@ Lemma recv_frame_sigs e f o u oid : Inv e -> late e (LRecv f o) oid = false ->
   (tcount oid (snd (recv_frame e f o u)) + opn (fst (recv_frame e f o u)) oid <= opn e oid)%nat.
 Proof.
   intros I Hl. unfold late, dispatched in Hl. unfold recv_frame.
+  destruct (stray_fragment e f); [unfold tcount; cbn [fst snd dsigs filter length]; split; lia|].
   destruct (is_fragmentable f); [|apply recv_dispatch_sigs; assumption].
   pose proof (cache_append_spec (cachek e) f (inv_cwf e I)) as [Hc _].
   destruct (cache_append (cachek e) f) as [c' a]. cbn [fst snd] in *.
@@ -770,7 +772,8 @@ Proof. vm_compute. repeat split. Qed.
 Theorem gone_payload_dropped e sid ign co nx md d o u : gone e sid -> sid <> CONNECTION_STREAM_ID ->
   recv_frame e (FPayload sid ign false co nx md d) o u = (e, []).
 Proof.
-  intros [Ht Hc] Hs. unfold recv_frame. change (is_fragmentable (FPayload sid ign false co nx md d)) with true. cbv iota.
+  intros [Ht Hc] Hs. unfold recv_frame. change (stray_fragment e (FPayload sid ign false co nx md d)) with false.
+  change (is_fragmentable (FPayload sid ign false co nx md d)) with true. cbv iota.
   unfold cache_append. cbn [ffollows fsid]. rewrite Hc.
   assert ({| sc := sc e; table := table e; objs := objs e; cachek := cachek e |} = e) as -> by (destruct e; reflexivity).
   unfold recv_dispatch. cbn [fsid]. change (is_request_type (FPayload sid ign false co nx md d)) with false.
